@@ -171,6 +171,8 @@ fn robustness_script(t: &mut Tape) -> Script {
         }
     }
     s.log_enabled = t.flag();
+    // a server that keeps answering the same way for ever (every status, timeout, ...): checks must still end
+    s.repeat_last_http = t.chance(1, 3);
     s
 }
 
@@ -222,7 +224,7 @@ fn check_liveness(h: &Hist) -> Result<(), Failure> {
     for (k, e) in h.ends.iter().enumerate() {
         match e {
             RunEnd::Stalled => return Err(failure("hang", format!("life {k}: the event stream returned Pending although every environment operation had completed: the updater hangs"), h, Some((h.log.len().saturating_sub(30), h.log.len())))),
-            RunEnd::PollBudget => return Err(failure("livelock", format!("life {k}: 20000 polls without finishing the requested checks"), h, Some((h.log.len().saturating_sub(30), h.log.len())))),
+            RunEnd::PollBudget => return Err(failure("livelock", format!("life {k}: the state machine kept running (20000 polls or 50000 environment interactions) without finishing the requested checks"), h, Some((h.log.len().saturating_sub(30), h.log.len())))),
             _ => {}
         }
     }
